@@ -149,6 +149,8 @@ impl ContinuityStore {
     { unimplemented!() }
 
     //@@ fn crates/ripd/src/continuities.rs ContinuityStore::branch rules=R9,R10
+    //@@ rewrite self.stream_cache.append_best_effort(&event); => self.stream_cache.append_best_effort_locked(&next_seq, &event);
+    //@@ rewrite? drop(next_seq); => vrelease(&mut next_seq);
     //@@ sig
         ensures
             (from_message_id is Some && from_seq is Some) ==> ret is Err,                                           // [branch.both_selectors_refused]
@@ -199,6 +201,8 @@ impl ContinuityStore {
     //@@ end
 
     //@@ fn crates/ripd/src/continuities.rs ContinuityStore::handoff rules=R9,R10
+    //@@ rewrite self.stream_cache.append_best_effort(&event); => self.stream_cache.append_best_effort_locked(&next_seq, &event);
+    //@@ rewrite? drop(next_seq); => vrelease(&mut next_seq);
     //@@ sig
         ensures
             (from_message_id is Some && from_seq is Some) ==> ret is Err,                                           // [handoff.both_selectors_refused]
